@@ -420,35 +420,27 @@ func (acl *ACL) AuthorizeConnection(conn *net.Conn, cmd []string, command intern
 			return errors.New("not authorised to access any keys")
 		}
 
-		// 8. Check if readKeys are in IncludedReadKeys
-		if len(readKeys) > 0 && !slices.ContainsFunc(readKeys, func(key string) bool {
-			return slices.ContainsFunc(connection.User.IncludedReadKeys, func(readKeyGlob string) bool {
-				if acl.GlobPatterns[readKeyGlob].Match(key) {
-					return true
-				}
-				if !slices.Contains(notAllowed, fmt.Sprintf("%s~%s", "%R", key)) {
-					notAllowed = append(notAllowed, fmt.Sprintf("%s~%s", "%R", key))
-				}
-				return false
-			})
-		}) {
-			if len(notAllowed) > 0 {
-				return fmt.Errorf("not authorised to access the following read keys: %+v", notAllowed)
+		// 8. Check that every one of the readKeys matches a pattern in IncludedReadKeys
+		for _, key := range readKeys {
+			if !slices.ContainsFunc(connection.User.IncludedReadKeys, func(readKeyGlob string) bool {
+				return acl.GlobPatterns[readKeyGlob].Match(key)
+			}) && !slices.Contains(notAllowed, fmt.Sprintf("%s~%s", "%R", key)) {
+				notAllowed = append(notAllowed, fmt.Sprintf("%s~%s", "%R", key))
 			}
 		}
+		if len(notAllowed) > 0 {
+			return fmt.Errorf("not authorised to access the following read keys: %+v", notAllowed)
+		}
 
-		// 9. Check if write keys are in IncludedWriteKeys
-		if len(writeKeys) > 0 && !slices.ContainsFunc(writeKeys, func(key string) bool {
-			return slices.ContainsFunc(connection.User.IncludedWriteKeys, func(writeKeyGlob string) bool {
-				if acl.GlobPatterns[writeKeyGlob].Match(key) {
-					return true
-				}
-				if !slices.Contains(notAllowed, fmt.Sprintf("%s~%s", "%W", key)) {
-					notAllowed = append(notAllowed, fmt.Sprintf("%s~%s", "%W", key))
-				}
-				return false
-			})
-		}) {
+		// 9. Check that every one of the write keys matches a pattern in IncludedWriteKeys
+		for _, key := range writeKeys {
+			if !slices.ContainsFunc(connection.User.IncludedWriteKeys, func(writeKeyGlob string) bool {
+				return acl.GlobPatterns[writeKeyGlob].Match(key)
+			}) && !slices.Contains(notAllowed, fmt.Sprintf("%s~%s", "%W", key)) {
+				notAllowed = append(notAllowed, fmt.Sprintf("%s~%s", "%W", key))
+			}
+		}
+		if len(notAllowed) > 0 {
 			return fmt.Errorf("not authorised to access the following write keys: %+v", notAllowed)
 		}
 	}
